@@ -1,7 +1,7 @@
 (** C06 — flushed data survives; a crash never exposes a half-applied write.  PARTIAL:
     redb (atomic commit, recovery of a killed process to the last commit) is trusted; the model
     starts at "the reopened file shows the last committed state". *)
-From ID Require Import Model.Tables Model.Commit Proofs.CommitFacts.
+From ID Require Import Model.Tables Model.Commit Proofs.CommitFacts Check.C06 Proofs.CommitShape.
 
 (** For every operation of the read-then-write-then-read shape, every placement of the age-based
     auto-commit among its steps and every crash point inside or right after it: the durable state
@@ -33,6 +33,17 @@ Check (eq_refl : crash_ok = fix crash_ok (s : cstate) (since : list tables) (ops
       crash_ok s' (if is_flush ms then [c_working s'] else c_working s' :: since) rest
   end).
 
+(** every operation kind the real store is compared on -- remote and local insert, prefix deletion,
+    flush, snapshot reads, a refused store call, removal and re-import of the document -- has that
+    shape, from whatever tables it starts; so the theorem above covers exactly the compared histories *)
+Theorem C06_compared_operations_are_shaped : forall ns T o, shaped (micro_of ns T o).
+Proof. exact micro_of_shaped. Qed.
+Theorem C06_compared_histories_crash_ok : forall ns (ops : list (cop * list bool)) T (Ts : list tables),
+  length Ts = length ops ->
+  Forall (fun x => length (snd (fst x)) = length (micro_of ns (snd x) (fst (fst x)))) (combine ops Ts) ->
+  crash_ok (mkC T T false) [T] (map (fun x => (micro_of ns (snd x) (fst (fst x)), snd (fst x))) (combine ops Ts)).
+Proof. exact compared_histories_crash_ok. Qed.
+
 (** a flush / snapshot makes the working state durable *)
 Theorem C06_flush_makes_durable : forall mca s g,
   c_durable (micro_step mca s MCommit g) = c_working (micro_step mca s MCommit g) \/ c_write_open s = false.
@@ -56,3 +67,5 @@ Print Assumptions C06_op_durable_is_boundary.
 Print Assumptions C06_history_crash_images.
 Print Assumptions C06_flush_makes_durable.
 Print Assumptions C06_mid_put_commit_refuted.
+Print Assumptions C06_compared_operations_are_shaped.
+Print Assumptions C06_compared_histories_crash_ok.
